@@ -82,6 +82,9 @@ pub struct RunPlan {
     pub time_limits: bool,
     pub avoid_mn: bool,
     pub prunes: u32,
+    /// allocation queues exist and the real autoalloc scheduling pass runs against the core
+    #[serde(default)]
+    pub autoalloc_ticks: bool,
 }
 
 fn worker_spec(rng: &mut Rng, profile: Profile, groups: &[String]) -> WorkerSpec {
@@ -315,7 +318,9 @@ pub fn make_plan(rng: &mut Rng, profile: Profile, force_journal: Option<bool>) -
                 }
             }
         } as u32,
+        autoalloc_ticks: false,
     };
+    plan.autoalloc_ticks = rng.chance(1, 4);
     // Swarm dimension "lifetime": every worker is about to reach its time limit and many request
     // classes carry a time request, so that workers give tasks back on their own (hard rejects
     // of assigned and pre-sent tasks, the periodic retract check) while the server retracts,
@@ -762,6 +767,7 @@ pub struct Budgets {
     pub late_workers: Vec<u32>,
     pub prunes_left: u32,
     pub queue_events_left: u32,
+    pub autoalloc_ticks_left: u32,
 }
 
 /// Enumerates what can happen next. Draws from the RNG for the parameters of generated actions
@@ -955,8 +961,16 @@ pub fn candidates(
                 });
             }
         }
-        if plan.cluster.journal
-            && matches!(plan.profile, Profile::Restore | Profile::Prune | Profile::Kill)
+        if plan.autoalloc_ticks && !world.live_queues.is_empty() && budgets.autoalloc_ticks_left > 0 {
+            out.push(Candidate {
+                action: Action::AutoallocTick,
+                actor: Actor::Scheduler,
+                weight: 2,
+            });
+        }
+        if ((plan.cluster.journal
+            && matches!(plan.profile, Profile::Restore | Profile::Prune | Profile::Kill))
+            || plan.autoalloc_ticks)
             && budgets.queue_events_left > 0
         {
             let create = world.live_queues.is_empty() || rng.chance(2, 3);
